@@ -365,12 +365,15 @@ def rule_R5(ctx, f):
         ctx.ob(rid, "Registry::%s|under-lock" % m, ok, "Registry::%s must run RegistryCore::%s on the %s guard of self.r, once" % (m, m, lock.split("::")[1]), site=b.raw["span"]["at"])
 
 
-def _as(ctx, rid, fn):
-    """Run rules of another property module and record their obligations under rule id `rid` of this property."""
+def _as(ctx, rid, fn, keep=None):
+    """Run rules of another property module and record their obligations under rule id `rid` of this property
+    (keep: optional predicate on the original key, to take over only the obligations that are necessary for this property)."""
     sub = type(ctx)(ctx.prop, tier=ctx.tier, repo=ctx.repo, quiet=True)
     sub._facts, sub._harness = ctx._facts, ctx._harness
     fn(sub)
     for o in sub.obligations:
+        if keep is not None and not keep(o["key"]):
+            continue
         o = dict(o)
         orig = o["key"].split("|", 1)
         o["key"] = "%s.%s|%s:%s" % (ctx.prop, rid, orig[0].split(".", 1)[1], orig[1])
